@@ -261,6 +261,14 @@ def schema_typing(tier, seed):
                     num = decimal.Decimal(text) if bt not in ('double', 'float') else float(text)
                     if st6 != 'ok' or not _loose_equal(r6, num + 1):
                         bad('arithmetic on a typed node does not use the typed value' + static, **w, got=repr((st6, r6))[:60])
+                    # the other arithmetic operators: integer division on integer-typed nodes, multiplication and unary minus with the value's own type
+                    if bt not in ('decimal', 'double', 'float') and not static:
+                        ival = int(text)
+                        for expr6, want6 in ((f'/root/{path} idiv 1', ival), (f'(/root/{path} * 2) idiv 2', ival), (f'- /root/{path}', -ival), (f'/root/{path} mod 1', 0)):
+                            st9, r9 = _ev(root, expr6, schema)
+                            if st9 != 'ok' or isinstance(r9, (list, float)) or r9 != want6:
+                                bad('arithmetic on a typed node does not use the typed value (idiv, mod, unary minus on integer-typed nodes)', **w, expr=expr6,
+                                    got=repr((st9, r9))[:60], expected=want6)
                     st7, r7 = _ev(root, f'/root/{path} lt 1e100', schema)
                     if (st7, r7) != ('ok', True):
                         bad('value comparison on a typed numeric node fails' + static, **w, got=repr((st7, r7))[:60])
